@@ -26,6 +26,8 @@ MStep(m, e, idx) ==
         [m EXCEPT !.ended = "exc",
                   !.bad = IF m.failat < 0 \/ ~e.same THEN Flag(@, "C16", "C16_ForeignException_" \o e.exctype, idx)
                           ELSE IF m.got # Expect(m) THEN Flag(@, "C16", "C16_ErrorAfterN", idx) ELSE @]
+    \* a second, independent bridge used while this one is in mid-iteration delivers its own elements
+    [] e.e = "Twin" -> [m EXCEPT !.bad = IF ~e.ok THEN Flag(@, "C16", "C16_Interference", idx) ELSE @]
     [] e.e = "Beat" -> [m EXCEPT !.beats = @ + 1]
     [] e.e = "IterEnd" ->
         LET dur == e.t - m.t0
